@@ -12,6 +12,7 @@ from yamlpath.enums import (
 )
 from yamlpath.common import Anchors, Nodes
 from yamlpath.types import PathAttributes
+from yamlpath.exceptions import YAMLPathException
 from yamlpath.path import SearchTerms
 
 
@@ -109,7 +110,12 @@ class Searches:
             else:
                 matches = str(typed_haystack) <= str(needle)
         elif method == PathSearchMethods.REGEX:
-            matcher = re.compile(needle)
+            try:
+                matcher = re.compile(needle)
+            except re.error as ex:
+                raise YAMLPathException(
+                    "Invalid Regular Expression, {}".format(ex),
+                    str(needle)) from ex
             matches = matcher.search(str(typed_haystack)) is not None
         else:
             raise NotImplementedError
